@@ -587,6 +587,11 @@ impl<'r> Gen<'r> {
         let size = if self.rng.chance(1, 4) && n > 0 {
             // size computed by an expression
             op("+", AST::Integer(n as i32 - 1), AST::Integer(1))
+        } else if self.rng.chance(1, 6) && self.no_decl == 0 {
+            // README: a `let` in the size expression stays visible afterwards
+            let name = self.fresh("sz");
+            self.declare(&name, Ty::Int);
+            AST::variable(id(&name), AST::Integer(n as i32))
         } else {
             AST::Integer(n as i32)
         };
@@ -1178,7 +1183,9 @@ pub fn fault_statement(class: &str, tag: usize) -> Vec<AST> {
     // Each fault is self-contained: it builds what it needs in its own block scope, so it can
     // be inserted anywhere a statement is allowed. A marker is printed right before the fault
     // so that "output before the fault" is visibly distinct from "fault not reached".
-    let pre = AST::print(format!("<fault {} {}>\\n", tag, class), vec![]);
+    // every other marker ends without a newline: output before a fault must survive even when
+    // the last line is still open
+    let pre = AST::print(format!("<fault {} {}>{}", tag, class, if tag % 2 == 0 { "\\n" } else { "" }), vec![]);
     let obj = || {
         AST::object(
             AST::Null,
@@ -1284,8 +1291,10 @@ pub struct Wild<'r> {
     pub formats: Option<Vec<String>>,
 }
 
-const WILD_NAMES: [&str; 12] = ["a", "b", "c", "x", "y", "foo", "_t", "this", "a1", "Bar", "get", "set"];
-const WILD_METHODS: [&str; 10] = ["m", "get", "set", "print", "foo", "add", "eq", "x", "this", "k9"];
+const WILD_NAMES: [&str; 24] = [
+    "a", "b", "c", "x", "y", "foo", "_t", "this", "a1", "Bar", "get", "set", "iff", "lets", "nullx", "truely", "thisx", "dot", "end_", "_", "__", "beginning", "whiles", "printer",
+];
+const WILD_METHODS: [&str; 14] = ["m", "get", "set", "print", "foo", "add", "eq", "x", "this", "k9", "objects", "arrays", "functional", "elsewhere"];
 
 impl<'r> Wild<'r> {
     pub fn new(rng: &'r mut Rng, budget: i32, avoid_static: bool) -> Wild<'r> {
